@@ -450,37 +450,60 @@ def run(ctx, rep):
                     rep.bad("R-DECLINE", b["key"], balance.path_report(F, b, bad[0], "the declining path touches count or ownership"), F.loc(b), tag)
                 else:
                     rep.ok("R-DECLINE", b["key"], cfg=tag)
-        for b in F.body_list:
-            if b.get("name") == "must_be_unique":
-                bad = None
-                n = 0
-                for p in A.paths[b["key"]]:
-                    if p.exit != "ret":
-                        continue
-                    n += 1
-                    tags = [e["detail"].get("tag") for e in p.events if e["kind"] == "CALL" and (F.body(e["detail"].get("callee")) or {}).get("name") == "try_as_unique"]
-                    if tags != ["Ok"]:
-                        bad = p
-                if bad is not None or n == 0:
-                    rep.bad("R-PANIC-DECLINE", b["key"], (balance.path_report(F, b, bad, "returns although the uniqueness test declined (must panic instead)") if bad else "never returns"), F.loc(b), tag)
-                else:
-                    rep.ok("R-PANIC-DECLINE", b["key"], cfg=tag)
-        for h, name in (("Arc", "write"), ("Arc", "as_mut_slice")):
-            for b in F.method(h, name):
-                B = cfg.Body(b)
-                callees = [atomics.callee_of(t) for _bi, t in B.calls()]
-                first = callees[0] if callees else None
-                if first and (F.body(first) or {}).get("name") == "must_be_unique":
-                    rep.ok("R-PANIC-DECLINE", b["key"], cfg=tag)
-                else:
-                    rep.bad("R-PANIC-DECLINE", b["key"], "the deprecated writer does not start by obtaining `&mut UniqueArc` from the panicking uniqueness check (first call: %s)" % first, F.loc(b), tag)
         balance.rule_cbzero(ctx, rep) if tag == ctx.configs[0][0] else None
     from . import c09
 
     c09.rule_decline(ctx, rep)
+    rule_panic_decline(ctx, rep)
     rep.floor("R-GATE-DEF", 1, "one gate definition")
     rep.floor("R-GATE", 12, "payload &mut producers, UniqueArc constructions, unsafe-constructor call sites")
-    rep.floor("R-PANIC-DECLINE", 3, "must_be_unique and the two deprecated writers")
+
+
+def rule_panic_decline(ctx, rep):
+    """The deprecated writers (Arc::write, Arc::as_mut_slice) start by calling a checking helper whose every returning path went
+    through the `Ok` arm of a function returning `Result<&mut UniqueArc, _>` (the declining arm panics), and never borrow the payload themselves."""
+    from .. import atomics
+
+    for tag, F, E in ctx.each():
+        A = balance.analysis(tag, F, E)
+        for h, name in (("Arc", "write"), ("Arc", "as_mut_slice")):
+            bs = F.method(h, name)
+            if not bs:
+                rep.bad("ANCHOR-LOST", "R-PANIC-DECLINE/%s::%s" % (h, name), "deprecated writer named by the property is missing", None, tag)
+            for b in bs:
+                B = cfg.Body(b)
+                callees = [atomics.callee_of(t) for _bi, t in B.calls()]
+                first = callees[0] if callees else None
+                direct = any(e["kind"] == "DATAREF" and e["detail"]["mut"] for p in A.paths[b["key"]] for e in p.events)
+                fb = F.body(first) if first else None
+                ok = fb is not None and not direct
+                why = None
+                if not ok:
+                    why = "the deprecated writer must obtain `&mut UniqueArc` from the panicking uniqueness check before anything else and never touch the payload directly (first call: %s, direct payload borrow: %s)" % (first, direct)
+                else:
+                    # the helper returns only when a Result<&mut UniqueArc, _>-returning callee said Ok
+                    n = 0
+                    for p in A.paths[first]:
+                        if p.exit != "ret":
+                            continue
+                        n += 1
+                        tags = []
+                        for e in p.events:
+                            if e["kind"] == "CALL":
+                                cb = F.body(e["detail"].get("callee")) or {}
+                                if "output" in cb and F.ts(cb["output"]).startswith("core::result::Result<") and F.mentions_adt(cb["output"], F.handle_paths.get("UniqueArc")):
+                                    tags.append(e["detail"].get("tag"))
+                        if tags != ["Ok"]:
+                            ok, why = False, balance.path_report(F, fb, p, "the checking helper returns although the uniqueness test declined (it must panic instead of granting write access)")
+                    if n == 0:
+                        ok, why = False, "the checking helper %s never returns" % first
+                    if ok and not F.mentions_adt(fb["output"], F.handle_paths.get("UniqueArc")):
+                        ok, why = False, "the first call of the deprecated writer (%s) does not return `&mut UniqueArc`" % first
+                if ok:
+                    rep.ok("R-PANIC-DECLINE", b["key"], cfg=tag)
+                else:
+                    rep.bad("R-PANIC-DECLINE", b["key"], why, F.loc(b), tag)
+    rep.floor("R-PANIC-DECLINE", 2, "the two deprecated writers")
 
 
 def _has_data(F, pl):
